@@ -585,6 +585,9 @@ func (c *Client) submitPersisted(packet net.Buffers, out outbound) (exchange <-c
 	defer func() {
 		out.seqSem <- seq // unlock with updated
 	}()
+	if c.ctx.Err() != nil {
+		return nil, ErrClosed
+	}
 
 	hasBacklog := seq.submitN < seq.acceptN
 
